@@ -192,8 +192,9 @@ def rule_data_weight_once(F, ev, R, config, rule="R-DATA-WEIGHT-ONCE"):
         ev.fresh_ctx()
         v = ev.ret_val(Env(sb))
         ok = False
-        if v[0] == "agg":
-            e = dict(v[3]).get(br["eps"])
+        fv = struct_view(F, v, ADT_PBUILDER)
+        if fv is not None:
+            e = fv.get(br["eps"])
             ok = (e is not None and e[0] == "opt" and e[1][0] == "call" and e[1][1].rsplit("::", 1)[-1] in ("abs", "modulus", "norm1")
                   and e[1][3] == (("param", sb.key, 2),))
         R.add(rule, config, sb.key, "epsilon-stores-abs", ok, "" if ok else "epsilon() stores `%s`, expected Some(|eps|)" % short(v)[:200], sb.j["span"])
@@ -1036,11 +1037,12 @@ def rule_setter_frame(F, ev, R, config, rule="R-SETTER-FRAME"):
         n += 1
         ev.fresh_ctx()
         v = ev.ret_val(Env(b))
-        if v[0] != "agg" or v[1] != ADT_PBUILDER:
+        fv = struct_view(F, v, ADT_PBUILDER)
+        if fv is None:
             R.bad(rule, config, b.key, "frame", "setter returns `%s` (undetermined)" % short(v)[:120], b.j["span"])
             continue
         own = br[expect[b.name]]
-        for f, t in v[3]:
+        for f, t in sorted(fv.items()):
             if f == own:
                 dep = contains(t, lambda x: x[0] == "param" and x[2] == 1)
                 R.add(rule, config, b.key, "sets:" + f, not dep, "" if not dep else "new value of `%s` depends on previous builder state" % f, b.j["span"])
@@ -1104,8 +1106,9 @@ def rule_problem_build_table(F, ev, R, config, rule="R-PROBLEM-BUILD-TABLE"):
                 return ("rows", r[0] == "Ne")
         if t[0] == "call" and t[1].endswith("::is_empty") and t[3][0] == Y:
             return ("empty", not neg)
-        if contains(t, lambda x: x[0] == "payload" and x[2] == "Diagonal") and contains(t, lambda x: x == ("field", me, br["weights"])):
-            return ("weights_fit", neg)   # the size test is true when the weights fit
+        if t[0] != "discr" and contains(t, lambda x: x[0] == "payload" and x[2] == "Diagonal") and contains(t, lambda x: x == ("field", me, br["weights"])) and \
+                contains(t, lambda x: (x[0] == "bin" and x[1] in ("Eq", "Ne")) or (x[0] == "call" and x[1].startswith("std::cmp::PartialEq"))):
+            return ("weights_fit", neg)   # the size test (a comparison of the diagonal's length) is true when the weights fit
         return None
 
     pairs = inlined_envs(ev, env)
